@@ -4,6 +4,7 @@ use crate::engine::Property;
 pub mod c01;
 pub mod c02;
 pub mod c03;
+pub mod c04;
 pub mod c05;
 pub mod c06;
 pub mod c07;
@@ -27,6 +28,7 @@ pub fn lookup(id: &str) -> Option<Box<dyn Property + Send>> {
         "C01" => Some(Box::new(c01::C01)),
         "C02" => Some(Box::new(c02::C02)),
         "C03" => Some(Box::new(c03::C03)),
+        "C04" => Some(Box::new(c04::C04)),
         "C05" => Some(Box::new(c05::C05)),
         "C06" => Some(Box::new(c06::C06)),
         "C07" => Some(Box::new(c07::C07)),
